@@ -54,6 +54,13 @@ let parse_op (w : string) : pop =
     | ["pa"; i; k] -> OPushBackAt (n i, n k)
     | ["sr"; i; p; a; b] -> OInsertSelfRange (n i, n p, n a, n b)
     | ["ps"; i; a; b] -> OPushBackSelfRange (n i, n a, n b)
+    (* no arguments: the new element is T() = value 0 *)
+    | ["ebd"; i] -> OEmplaceBack (n i, O)
+    | ["emd"; i; p] -> OEmplace (n i, n p, O)
+    (* positions before begin(): begin() - d, d >= 1 *)
+    | ["erb"; i; d] -> OEraseBefore (n i, n d)
+    | ["emb"; i; d; v] -> OEmplaceBefore (n i, n d, n v)
+    | ["irb"; i; d; xs] -> OInsertRangeBefore (n i, n d, nats xs)
     | _ -> failwith "op" in
   { o; plan; name = List.hd f }
 
@@ -65,18 +72,21 @@ let writes o = match o with
   | OAt (i, _) | OGet (i, _) | OEmplace (i, _, _) | OEmplaceBack (i, _) | OInsert (i, _) | OInsertMove (i, _)
   | OPushBack (i, _) | OInsertRange (i, _, _) | OInsertList (i, _, _) | OPushBackRange (i, _) | OPop i | OErase (i, _)
   | ODestroy i | OEmplaceAt (i, _, _) | OEmplaceBackAt (i, _) | OInsertAt (i, _) | OPushBackAt (i, _)
-  | OInsertSelfRange (i, _, _, _) | OPushBackSelfRange (i, _, _) -> [n2i i]
+  | OInsertSelfRange (i, _, _, _) | OPushBackSelfRange (i, _, _)
+  | OEraseBefore (i, _) | OEmplaceBefore (i, _, _) | OInsertRangeBefore (i, _, _) -> [n2i i]
 let uses o = match o with
   | ONew _ | ONewFrom _ | ONewList _ | OListAssign _ | ODestroy _ -> []
   | OCopy (_, j) | OMove (_, j) | OAssign (_, j) | OMoveAssign (_, j) -> [n2i j]
   | OAt (i, _) | OGet (i, _) | OEmplace (i, _, _) | OEmplaceBack (i, _) | OInsert (i, _) | OInsertMove (i, _)
   | OPushBack (i, _) | OInsertRange (i, _, _) | OInsertList (i, _, _) | OPushBackRange (i, _) | OPop i | OErase (i, _)
   | OEmplaceAt (i, _, _) | OEmplaceBackAt (i, _) | OInsertAt (i, _) | OPushBackAt (i, _)
-  | OInsertSelfRange (i, _, _, _) | OPushBackSelfRange (i, _, _) -> [n2i i]
+  | OInsertSelfRange (i, _, _, _) | OPushBackSelfRange (i, _, _)
+  | OEraseBefore (i, _) | OEmplaceBefore (i, _, _) | OInsertRangeBefore (i, _, _) -> [n2i i]
 let needs_copy o = match o with
   | ONewFrom _ | ONewList _ | OCopy _ | OAssign _ | OListAssign _ | OInsert _ | OPushBack _ | OInsertRange _
   | OInsertList _ | OPushBackRange _
-  | OEmplaceAt _ | OEmplaceBackAt _ | OInsertAt _ | OPushBackAt _ | OInsertSelfRange _ | OPushBackSelfRange _ -> true
+  | OEmplaceAt _ | OEmplaceBackAt _ | OInsertAt _ | OPushBackAt _ | OInsertSelfRange _ | OPushBackSelfRange _
+  | OInsertRangeBefore _ -> true
   | _ -> false
 (* positions are turned into iterators begin()+pos by the C++ driver: only 0..capacity is a valid pointer *)
 let position o = match o with
@@ -87,7 +97,9 @@ let list_len o = match o with
   | ONewList (_, xs) | OListAssign (_, xs) | OInsertList (_, _, xs) -> List.length xs
   | _ -> 0
 
-let ch_slot = function Filled v -> let v = n2i v in if v >= 1 && v <= 9 then Char.chr (48 + v) else '?' | Fresh -> 'f' | Moved -> 'm'
+(* a value-initialised element shows as 0 whether the caller asked for it (emplace_back() : Filled 0) or never wrote the
+   slot (Fresh): the two are the same object state in C++; caller-given values in the cases are 1..9 *)
+let ch_slot = function Filled v -> let v = n2i v in if v >= 0 && v <= 9 then Char.chr (48 + v) else '?' | Fresh -> '0' | Moved -> 'm'
 let ch_access = function Val s -> ch_slot s | ARaised -> 'R' | AOut -> '!'
 let str_of_chars l = if l = [] then "-" else String.init (List.length l) (List.nth l)
 let range a b = if b < a then [] else List.init (b - a + 1) (fun k -> a + k)
@@ -122,6 +134,7 @@ let refused variant (p : pop) : bool =
   || List.exists (fun i -> i >= npool) (writes p.o @ uses p.o)
   || list_len p.o > 5
   || (match p.o with OGet (_, k) -> n2i k > 5 | _ -> false)
+  || (match p.o with OEraseBefore (_, d) | OEmplaceBefore (_, d, _) | OInsertRangeBefore (_, d, _) -> n2i d < 1 || n2i d > 4 | _ -> false)
 (* checked after the moved-from rule, so that the capacity of a moved-from object is never consulted *)
 let bad_position (p : pop) (capof : int -> int option) : bool =
   match position p.o with Some (i, pos) -> (match capof i with Some c -> pos > c | None -> false) | None -> false
@@ -176,7 +189,7 @@ let parse_state (s : string) : aobj option =
   | [c; sz; e; a; f; r; d; fb] when String.length c > 1 && String.length sz > 1 ->
     let c = int_of_string (String.sub c 1 (String.length c - 1)) and n = int_of_string (String.sub sz 1 (String.length sz - 1)) in
     let chars x = if x = "-" then [] else List.init (String.length x) (String.get x) in
-    let sl ch = if ch >= '1' && ch <= '9' then Filled (i2n (Char.code ch - 48)) else if ch = 'm' then Moved else if ch = 'f' then Fresh else failwith "slot" in
+    let sl ch = if ch >= '0' && ch <= '9' then Filled (i2n (Char.code ch - 48)) else if ch = 'm' then Moved else failwith "slot" in
     let l = List.map sl (chars e) in
     let ao = (i2n c, l) in
     if List.length l = n && n <= c && render_abs ao = s then Some ao else None
@@ -192,7 +205,10 @@ let oracle (ws : string list) (obs : string) : bool =
     if List.length toks <> List.length ops then false else begin
       let pool = ref (repeat None (i2n npool) : apool) in
       let mf = Array.make npool false in
-      let nonfresh l = List.for_all (fun x -> x <> Fresh) l in
+      (* "no never-filled slot became visible": value-initialised elements (shown as 0) may not multiply, except by the one
+         an argument-less emplace inserts *)
+      let zeros l = List.length (List.filter (fun x -> x = Fresh || x = Filled O) l) in
+      let extra o = (match o with OEmplace (_, _, O) | OEmplaceBack (_, O) -> 1 | _ -> 0) in
       List.for_all2 (fun w tok ->
         let p = parse_op w in
         let capof i = match aget !pool (i2n i) with Some (c, _) -> Some (n2i c) | None -> None in
@@ -218,7 +234,7 @@ let oracle (ws : string list) (obs : string) : bool =
               | OEmplaceAt _ | OInsertSelfRange _ | OPushBackSelfRange _ ->
                   (match old, parse_state s with
                    | Some (c, l), Some (c', l') ->
-                       c' = c && nonfresh l' &&
+                       c' = c && zeros l' <= zeros l + extra p.o &&
                        (match p.o with OEmplace _ | OErase _ | OEmplaceAt _ -> List.length l' = List.length l | _ -> List.length l' >= List.length l) &&
                        (pool := aset !pool (i2n i) (Some (c', l')); true)
                    | _ -> false)
@@ -232,7 +248,7 @@ let oracle (ws : string list) (obs : string) : bool =
              | [(i, s)] when [i] = ws_ ->
                  (match aget pool' (i2n i), parse_state s with
                   | Some (c, l), Some (c', l') ->
-                      oc = ch_outcome r && c' = c && List.length l' = List.length l && nonfresh l' &&
+                      oc = ch_outcome r && c' = c && List.length l' = List.length l && zeros l' <= zeros l &&
                       (pool := aset pool' (i2n i) (Some (c', l')); true)
                   | _ -> false)
              | _ -> false)
